@@ -273,6 +273,11 @@ class CFG:
         """(test node, outcome) pairs that *must* hold on every path to target:
         test t with outcome o is required iff blocking edge (t, other outcome)
         ... i.e. target is unreachable when the t --o--> edge is removed."""
+        if skip_exc and target not in self.reachable(skip_exc=True):
+            # only reachable through an exceptional edge (handler code): conditions along exceptional paths
+            skip_exc = False
+        if target not in self.reachable(skip_exc=skip_exc):
+            return []
         out = []
         for t in self.nodes:
             if t.kind != "test":
